@@ -545,10 +545,10 @@ func init() {
 			Assumptions:   append([]string{"unique value per Set call, so a read identifies the write it observed; deletes all read as 'not found'", "64-bit key fingerprints of the key universe are checked to be collision-free", "goroutine schedules are those the Go scheduler and the injected delays produced"}, assumptions...),
 		})
 	}
-	reg("C05", "scripted: >=1 commit, >=1 flush and >10 predicted Gets; concurrent: >=1 reader whose lifetime overlapped a commit to a key it read, and >=1 flush", 200, 5000, 50, 1500, 0, 60, 1500,
+	reg("C05", "scripted: >=1 commit, >=1 flush and >10 predicted Gets; concurrent: >=1 reader whose lifetime overlapped a commit to a key it read, and >=1 flush", 200, 2500, 50, 600, 0, 60, 800,
 		[]string{"a checker timeout is inconclusive, never a verdict"})
-	reg("C06", "scripted: >=3 commits; concurrent: >=1 refused commit and >=10 committed writers", 60, 1500, 70, 2500, 0, 40, 1000, nil)
-	reg("C07", "scripted: >=1 predicted conflict and >=1 predicted non-conflicting overlap; concurrent: >=1 refused and >=5 committed writers", 300, 8000, 40, 1000, 3, 60, 1500,
+	reg("C06", "scripted: >=3 commits; concurrent: >=1 refused commit and >=10 committed writers", 60, 600, 70, 800, 0, 40, 400, nil)
+	reg("C07", "scripted: >=1 predicted conflict and >=1 predicted non-conflicting overlap; concurrent: >=1 refused and >=5 committed writers", 300, 3000, 40, 400, 3, 60, 600,
 		[]string{"exactness (iff) is claimed for the scripted driver; under concurrency only definite spurious aborts and definite missed conflicts are judged"})
-	reg("C08", "scripted: >=1 abandoned write set and >=1 flush; concurrent: >=1 refused or discarded writer and >=1 flush", 200, 5000, 40, 1000, 0, 60, 1500, nil)
+	reg("C08", "scripted: >=1 abandoned write set and >=1 flush; concurrent: >=1 refused or discarded writer and >=1 flush", 200, 2000, 40, 400, 0, 60, 600, nil)
 }
